@@ -558,6 +558,37 @@ theorem merge_inv (other : List Edge) (pfx : Bool) : ∀ (s : Store), s.Inv →
       rw [heq] at h2
       exact h2
 
+/-- What a successful `merge` does to the reaction table: the old reactions are untouched and
+one reaction per reaction of the other network is appended, with that reaction's rule and
+stoichiometry (under an id that `Inv` guarantees to be fresh). -/
+theorem merge_edges' (other : List Edge) (pfx : Bool) : ∀ (s s' : Store),
+    s.merge other pfx = (s', .ok ()) →
+    ∃ added : List Edge, s'.edges = s.edges ++ added ∧
+      added.map (fun e => (e.rule, e.reactants, e.products)) =
+        other.map (fun e => (normRule (some e.rule), e.reactants, e.products)) := by
+  induction other with
+  | nil =>
+    intro s s' h
+    simp only [Store.merge, Prod.mk.injEq] at h
+    exact ⟨[], by simp [h.1], rfl⟩
+  | cons e rest ih =>
+    intro s s' h
+    unfold Store.merge at h
+    rcases hh : (if pfx || e.id ∈ s.ids then s.nextId e.rule else (s, e.id)) with ⟨s1, newId⟩
+    have hs1 : s1.edges = s.edges := by
+      have : s1 = (if pfx || e.id ∈ s.ids then s.nextId e.rule else (s, e.id)).1 := by rw [hh]
+      rw [this]; split <;> rfl
+    rw [hh] at h
+    simp only at h
+    split at h
+    · rename_i s2 i heq
+      obtain ⟨_, _, s0, h0, _, _, _, _, _, h2⟩ := addNorm_ok _ _ _ _ _ _ _ heq
+      obtain ⟨added, ha, hb⟩ := ih s2 s' h
+      refine ⟨⟨i, normRule (some e.rule), e.reactants, e.products⟩ :: added, ?_, ?_⟩
+      · rw [ha, h2]; simp [Store.insertEdge, h0, hs1]
+      · simp [hb]
+    · simp at h
+
 theorem assignMol_inv (s : Store) (sp m : String) (h : s.Inv) : (s.assignMol sp m).1.Inv := by
   unfold Store.assignMol
   split
